@@ -4,7 +4,7 @@
    Exp/ExportDoc.v (the supported schema in canonical order, and the tolerated differences). *)
 From Coq Require Import List NArith ZArith Bool.
 From RPFT Require Import Base.Sexp Base.PyStr Base.Result Base.Json Gen.Tables
-  Exp.Load Exp.Render Exp.ExportDoc Exp.ExportFacts Exp.CaseFacts.
+  Exp.Load Exp.Render Exp.ExportDoc Exp.ExportFacts Exp.CaseFacts Exp.GroupFacts.
 Import ListNotations.
 
 (* ---- per-class round trips: render (load (emit x)) = norm (emit x) *)
@@ -85,6 +85,73 @@ Theorem C05_group_attrs_witness :
 Proof. exact group_attrs_witness. Qed.
 Print Assumptions C05_group_attrs_witness.
 
+(* ---- the container's own groups (repair "validate() keeps query/status/system/count of the
+   container's groups").  [kept_group g] is [g] on a tree that carries the repair (probe
+   validate_keeps_group_attrs, regenerated from the code under check) and Group(name, uuid) on a
+   tree that does not; likewise [kept_top] on the document side. *)
+
+(* a top-level group with any subset of its optional attributes, null or not: per-class round trip *)
+Theorem C05_top_group_roundtrip : forall g,
+  rmap render_group (load_group (emit_top g)) = Ok (norm_group (emit_top g)).
+Proof. exact top_group_roundtrip. Qed.
+Print Assumptions C05_top_group_roundtrip.
+
+Theorem C05_group_tables_ok : group_tables_ok = true.
+Proof. exact group_tables_ok_true. Qed.
+Print Assumptions C05_group_tables_ok.
+
+(* validate(), whatever else the container holds (flows, campaigns, triggers with any number of
+   references to the same or other groups): its own groups come first, in order; groups that are
+   only referenced follow *)
+Theorem C05_validate_keeps_groups : forall c c',
+  own_groups_ok (ct_groups c) -> validate c = Ok c' ->
+  exists referenced, ct_groups c' = map kept_group (ct_groups c) ++ referenced.
+Proof. exact validate_keeps_groups. Qed.
+Print Assumptions C05_validate_keeps_groups.
+
+Theorem C05_validate_keeps_groups_repaired :
+  validate_keeps_group_attrs = true ->
+  forall c c', own_groups_ok (ct_groups c) -> validate c = Ok c' ->
+  exists referenced, ct_groups c' = ct_groups c ++ referenced.
+Proof. exact validate_keeps_groups_repaired. Qed.
+Print Assumptions C05_validate_keeps_groups_repaired.
+
+Example C05_validate_keeps_groups_nonvacuous :
+  exists c c', from_dict w_groups_mixed = Ok c /\ own_groups_ok (ct_groups c) /\ validate c = Ok c'
+               /\ length (ct_groups c) = 2 /\ length (ct_groups c') = 3
+               /\ roundtrip w_groups_mixed
+                  = Ok (if validate_keeps_group_attrs then
+                          upd k_groups (fun g => match g with JArr l => JArr (l ++ [JObj [(k_name, s1 82); (k_uuid, s1 114)]]) | _ => g end)
+                              (norm w_groups_mixed)
+                        else upd k_groups (fun _ => JArr [JObj [(k_name, s1 71); (k_uuid, s1 103)];
+                                                          JObj [(k_name, s1 72); (k_uuid, s1 104)];
+                                                          JObj [(k_name, s1 82); (k_uuid, s1 114)]])
+                                 (norm w_groups_mixed)).
+Proof. exact validate_keeps_groups_nonvacuous. Qed.
+Print Assumptions C05_validate_keeps_groups_nonvacuous.
+
+(* whole-document theorem for exports that consist of groups: from_dict -> validate -> render *)
+Theorem C05_groups_doc_roundtrip : forall gs fields site version,
+  tops_ok gs -> truthy site = true ->
+  roundtrip (emit (groups_doc gs fields site version))
+  = Ok (norm (emit (groups_doc (map kept_top gs) fields site version))).
+Proof. exact groups_doc_roundtrip. Qed.
+Print Assumptions C05_groups_doc_roundtrip.
+
+Theorem C05_groups_doc_roundtrip_repaired :
+  validate_keeps_group_attrs = true ->
+  forall gs fields site version, tops_ok gs -> truthy site = true ->
+  roundtrip (emit (groups_doc gs fields site version)) = Ok (norm (emit (groups_doc gs fields site version))).
+Proof. exact groups_doc_roundtrip_repaired. Qed.
+Print Assumptions C05_groups_doc_roundtrip_repaired.
+
+Example C05_groups_doc_nonvacuous :
+  tops_ok ex_tops /\ truthy (s1 115) = true
+  /\ norm (emit (groups_doc ex_tops [] (s1 115) (s1 49))) <> emit (groups_doc ex_tops [] (s1 115) (s1 49))
+  /\ own_groups_ok (map lower_top ex_tops).
+Proof. exact groups_doc_nonvacuous. Qed.
+Print Assumptions C05_groups_doc_nonvacuous.
+
 (* ---- refutations: the full statement is false of the faithful model (open findings) *)
 Theorem C05_category_order_refuted : roundtrip w_category_order <> Ok (norm w_category_order).
 Proof. exact category_order_refuted. Qed.
@@ -108,8 +175,8 @@ Theorem C05_witnesses_idempotent :
                     | Ok o => match roundtrip o with Ok o' => json_eqb o o' | Err _ => false end
                     | Err _ => false
                     end)
-          [w_typed_field; w_group_attrs; w_category_order; w_exit_order; w_shared_exit; w_canonical] = true.
-Proof. exact witnesses_idempotent. Qed.
+          [w_typed_field; w_group_attrs; w_groups_mixed; w_category_order; w_exit_order; w_shared_exit; w_canonical] = true.
+Proof. exact witnesses_idempotent'. Qed.
 Print Assumptions C05_witnesses_idempotent.
 
 (* router cases: every test type, every argument list its validator accepts *)
